@@ -211,7 +211,8 @@ Record login_out := {
 Definition login_err (rnd : N) : login_out :=
   {| lo_ok := false; lo_browser := []; lo_back := []; lo_cookie := None; lo_rnd := rnd |}.
 
-(* Client.Login + Standalone.Login for the chosen matching ingress; [par_uri] is what the PAR endpoint answered *)
+(* Client.Login + Standalone.Login for the chosen matching ingress when the PAR endpoint (if any) answers the first
+   attempt with the request_uri [par_uri]; the general case is [login_par] below *)
 Definition login_with (c : acfg) (q : areq) (rnd : N) (referer : sval) (par_uri : sval) (i : ingress) : login_out :=
   let ap := auth_params c q i rnd in
   if a_par c then
@@ -226,11 +227,52 @@ Definition login_with (c : acfg) (q : areq) (rnd : N) (referer : sval) (par_uri 
        lo_cookie := Some (CkEnc (a_key c) (login_cookie_fields c q i rnd referer));
        lo_rnd := rnd + 3 |}.
 
+(** ** The pushed-authorization exchange (authCodeURL: retry.DoValue around oauthPostRequest)
+    What the PAR endpoint does is the environment's choice; the list gives its answers to the successive attempts of
+    ONE login and ends where the retry budget (pkg/retry: Fibonacci back-off from 50 ms, at most 5 s) ends. *)
+Inductive par_reply :=
+| ParOk (uri : sval)     (* 2xx with a JSON object as body; uri = its request_uri member (empty if there is none) *)
+| ParServerError         (* 5xx: ErrOpenIDServer, the only retryable answer *)
+| ParClientError         (* 4xx: ErrOpenIDClient, final *)
+| ParMalformed           (* 2xx whose body does not decode, final *)
+| ParTimeout             (* connection accepted, request read, no answer before the client's own timeout (10 s), final *)
+| ParUnreachable.        (* no connection (refused): final, and nothing reached the endpoint *)
+
+(* the POSTs that reached the endpoint (each carries the full body, client authentication included) and the
+   request_uri obtained, if any *)
+Fixpoint par_exchange (body : params) (replies : list par_reply) : list bop * option sval :=
+  match replies with
+  | [] => ([], None)                                   (* retry budget exhausted *)
+  | ParOk uri :: _ => ([BPar body], Some uri)
+  | ParServerError :: r => let '(b, res) := par_exchange body r in (BPar body :: b, res)
+  | ParClientError :: _ | ParMalformed :: _ | ParTimeout :: _ => ([BPar body], None)
+  | ParUnreachable :: _ => ([], None)
+  end.
+
+(* Client.Login + Standalone.Login for the chosen matching ingress under an arbitrary behaviour of the PAR endpoint.
+   The values (nonce, state, verifier, and the assertion's jti) are drawn before the exchange, ONE body and ONE client
+   authentication serve all attempts; if the exchange yields no request_uri the login fails (InternalError): no
+   authorization request, no login cookie - the browser gets the error / retry response only. Without PAR the
+   endpoint is never contacted. *)
+Definition login_par (c : acfg) (q : areq) (rnd : N) (referer : sval) (replies : list par_reply) (i : ingress) : login_out :=
+  if a_par c then
+    let rnd' := if a_use_secret c then rnd + 3 else rnd + 4 in
+    match par_exchange (auth_params c q i rnd ++ client_auth c (rnd + 3)) replies with
+    | (back, Some uri) =>
+      {| lo_ok := true;
+         lo_browser := [(PClientId, VStr (a_client_id c)); (PRequestUri, uri)];
+         lo_back := back;
+         lo_cookie := Some (CkEnc (a_key c) (login_cookie_fields c q i rnd referer));
+         lo_rnd := rnd' |}
+    | (back, None) => {| lo_ok := false; lo_browser := []; lo_back := back; lo_cookie := None; lo_rnd := rnd' |}
+    end
+  else login_with c q rnd referer (VStr []) i.
+
 (* the set of admissible results (Go map iteration order) *)
-Definition login_results (c : acfg) (q : areq) (rnd : N) (referer par_uri : sval) : list login_out :=
+Definition login_results (c : acfg) (q : areq) (rnd : N) (referer : sval) (replies : list par_reply) : list login_out :=
   match matching_ingresses c q with
   | [] => [login_err rnd]          (* url.LoginCallback fails before anything is generated *)
-  | l => map (login_with c q rnd referer par_uri) l
+  | l => map (login_par c q rnd referer replies) l
   end.
 
 (** * Logout (self-initiated): the end-session redirect *)
